@@ -44,6 +44,7 @@ struct Stats {
   unsigned long controls = 0, controls_sat = 0, witnesses = 0, witnesses_sat = 0, divisions_checked = 0;
   double solver_s = 0, slowest_s = 0;
   std::set<unsigned> nontrivial;  // structural hashes of non-trivial obligations
+  std::set<unsigned> branch_atoms;  // structural hashes of branch conditions on which the solver found both outcomes feasible
   std::vector<Violation> violations;
   std::vector<std::string> inconclusive, notes, samples, reproduced;
 };
@@ -102,7 +103,22 @@ class Engine {
   size_t pos = 0;
   std::vector<std::pair<std::string, z3::expr>> vars;
   std::map<unsigned, bool> decided;  // atom id -> value on this path (monotone in pc)
-  std::vector<z3::expr> keepalive;
+  std::vector<z3::expr> keepalive;   // every term whose id is used as a key stays alive (ids are never reused)
+  // feasibility results shared between the re-executions of one case: key = (hash of the pc sequence, atom id)
+  struct FKey {
+    unsigned long long h1, h2;
+    unsigned atom;
+    bool operator<(const FKey &o) const { return h1 != o.h1 ? h1 < o.h1 : (h2 != o.h2 ? h2 < o.h2 : atom < o.atom); }
+  };
+  std::map<FKey, std::pair<bool, bool>> feas_cache;
+  unsigned long long h1 = 0x9e3779b97f4a7c15ULL, h2 = 0xc2b2ae3d27d4eb4fULL;
+  void push_pc(const z3::expr &c) {
+    pc.push_back(c);
+    keepalive.push_back(c);
+    h1 = (h1 ^ c.id()) * 0x100000001b3ULL + 0x632be59bd9b4e019ULL;
+    h2 = (h2 + c.id() * 0x9e3779b97f4a7c15ULL) ^ (h2 >> 29) ^ (h2 << 17);
+    decided.clear();
+  }
   const char *logic = "QF_NRA";
   static Engine &get() {
     static Engine e;
@@ -152,7 +168,18 @@ class Engine {
       return it->second;
     }
     keepalive.push_back(s);
-    bool ft = feasible(s), ff = feasible(!s);
+    bool ft, ff;
+    FKey fk{h1, h2, s.id()};
+    auto fc = feas_cache.find(fk);
+    if (fc != feas_cache.end()) {
+      ft = fc->second.first;
+      ff = fc->second.second;
+      stats().cache_hits++;
+    } else {
+      ft = feasible(s);
+      ff = feasible(!s);
+      feas_cache[fk] = {ft, ff};
+    }
     bool d;
     if (ft && !ff)
       d = true;
@@ -171,15 +198,13 @@ class Engine {
         stats().forks++;
       }
       pos++;
-      pc.push_back(d ? s : !s);
+      stats().branch_atoms.insert(s.hash());
+      push_pc(d ? s : !s);
     }
     decided[s.id()] = d;
     return d;
   }
-  void assume(const Bool &b) {
-    pc.push_back(b.e);
-    decided.clear();
-  }
+  void assume(const Bool &b) { push_pc(b.e); }
   bool next_path() {
     while (!trail.empty() && flipped.back()) {
       trail.pop_back();
@@ -195,6 +220,8 @@ class Engine {
     pc.clear();
     decided.clear();
     vars.clear();
+    h1 = 0x9e3779b97f4a7c15ULL;
+    h2 = 0xc2b2ae3d27d4eb4fULL;
   }
   void reset_all() {
     reset_run();
@@ -376,6 +403,9 @@ class Real {
   template <typename I, std::enable_if_t<std::is_integral_v<I>, bool> = true>
   explicit Real(I i) : n(ctx().real_val(std::to_string((long long)i).c_str())) {}
   Real(z3::expr nn, FacMS dd) : n(nn), d(std::move(dd)) {}
+  // copy only: a moved-from scalar keeps its value (as a built-in would); z3::expr's own move would leave a null term
+  Real(const Real &) = default;
+  Real &operator=(const Real &) = default;
   static Real var(const std::string &nm) {
     z3::expr v = ctx().real_const(nm.c_str());
     auto &E = Engine::get();
@@ -426,8 +456,7 @@ class Real {
         std::ostringstream os;
         os << "divisor can be zero: " << on;
         E.violation("division-by-zero", "divzero", os.str().substr(0, 300), &m);
-        E.pc.push_back(on != 0);  // continue on the remaining inputs
-        E.decided.clear();
+        E.push_pc(on != 0);  // continue on the remaining inputs
       } else if (r == z3::unknown) {
         stats().inconclusive.push_back("division check unknown");
         throw AbortCase("division check unknown");
@@ -626,6 +655,8 @@ class Real {
   Real(FromQ, Q q) : v{std::move(q)} {}
   struct FromV {};
   Real(FromV, V x) : v(std::move(x)) {}
+  Real(const Real &) = default;  // copy only, like the symbolic build
+  Real &operator=(const Real &) = default;
   static Real var(const std::string &nm) {
     auto &m = Engine::get().model;
     auto it = m.find(nm);
